@@ -421,7 +421,7 @@ def run(ctx):
         ctx.violation("generator", {"invalid": invalid}, "too many generated matches are rejected for reasons other than exhaustiveness", no_input=True)
 
     # ---- run accepted matches on fuel-vm
-    run_pkgs, lim = [], (12 if ctx.quick else 48)
+    run_pkgs, lim = [], (6 if ctx.quick else 48)
     for name, decls, cases in pkgs:
         acc = [c for c in cases if c.obs and not c.obs["nonexh"] and not c.obs["fail"] and not c.obs["invalid"] and len(c.arms) < 100]
         if not acc or len(run_pkgs) >= lim: continue
